@@ -13,8 +13,11 @@ EXPLANATION = ('theorems (PcbV.Props.C10 on PcbV.Model.Heap): on every well-form
                'never crashes, preserves well-formedness and every readable value (scalars, array elements, stack '
                'temporaries, several views of one cell), never loses space, fills string space exactly (FRE '
                'accounting); check_free fails only when the space after a collection is insufficient and changes '
-               'no value; storing a string; reset_temporaries under an explicit hypothesis (partial: the '
-               'boundary invariant over whole histories is covered by correspondence only); correspondence: per-step outcome (error number / FRE value) and a digest of all variable '
+               'no value; storing a string; the temporaries boundary survives collections (monotone relocation) and '
+               'the history invariant (well-formed, variable strings above _temp) is preserved by LET/SWAP/ERASE/'
+               'DIM/FRE/CLEAR statements along arbitrary histories, which makes reset_temporaries safe '
+               '(partial: MID$/LSET/RSET/program literals and the per-statement value refinement are covered '
+               'by correspondence only); correspondence: per-step outcome (error number / FRE value) and a digest of all variable '
                'values of the model against the real Session; oracle: a plain dict reference semantics, exact FRE '
                'accounting after forced collections, justification of Out of memory / Out of string space')
 TRUSTED_BASE = ['model PcbV.Model.Heap is a hand transcription of strings.py StringSpace/String.lset/midset, '
